@@ -286,7 +286,10 @@ def risky(prog):
 
 def parse_dump(line):
     try:
-        return ("ok", json.loads(line.replace("(error)", '"(error)"'), object_pairs_hook=lambda kv: kv))
+        d = json.loads(line.replace("(error)", '"(error)"'), object_pairs_hook=lambda kv: kv)
+        if [k for k, _ in d] != ["rec", "oos", "loc", "env"] or not all(isinstance(v, list) for _, v in d):
+            return ("unparsable", line[-300:])
+        return ("ok", d)
     except Exception:
         return ("unparsable", line[-300:])
 
@@ -320,23 +323,34 @@ def run_batch(ctx, cases):
     return [parse_dump(l) for l in lines]
 
 
+def run_split(ctx, cases, budget):
+    """run_batch, splitting a batch that mlr did not survive until the fatal cases are isolated; `budget` bounds the
+    number of mlr processes (a tree on which most programs are fatal would otherwise cost one process per case)"""
+    if budget[0] <= 0:
+        return [("skipped", None)] * len(cases)
+    budget[0] -= 1
+    o = run_batch(ctx, cases)
+    if o is not None:
+        return o
+    k = max(1, len(cases) // 4)
+    out = []
+    for i in range(0, len(cases), k):
+        out += run_split(ctx, cases[i:i + k], budget)
+    return out
+
+
 def run_all(ctx, cases):
     from concurrent.futures import ThreadPoolExecutor
     safe = [i for i, c in enumerate(cases) if not risky(c[1])]
     alone = [i for i, c in enumerate(cases) if risky(c[1])]
     res = [None] * len(cases)
-    chunks = [safe[k:k + 120] for k in range(0, len(safe), 120)]
-    with ThreadPoolExecutor(max_workers=4) as ex:
-        outs = list(ex.map(lambda ch: run_batch(ctx, [cases[i] for i in ch]), chunks))
-        for ch, o in zip(chunks, outs):
-            if o is None:
-                alone += ch
-            else:
-                for i, r in zip(ch, o):
-                    res[i] = r
-        singles = list(ex.map(lambda i: run_batch(ctx, [cases[i]])[0], alone))
-    for i, r in zip(alone, singles):
-        res[i] = r
+    chunks = [safe[k:k + 100] for k in range(0, len(safe), 100)] + [[i] for i in alone]
+    budget = [len(chunks) + 40]
+    with ThreadPoolExecutor(max_workers=2) as ex:
+        outs = list(ex.map(lambda ch: run_split(ctx, [cases[i] for i in ch], budget), chunks))
+    for ch, o in zip(chunks, outs):
+        for i, r in zip(ch, o):
+            res[i] = r
     return res
 
 
@@ -412,12 +426,18 @@ def run(ctx):
     cases = keep
     with ctx.timed("impl"):
         results = run_all(ctx, cases)
-    terms, meta, skipped = [], [], 0
+    terms, meta, skipped, nbroken = [], [], 0, 0
     for (rec, prog), res in zip(cases, results):
         ctx.count(("assign", program_text(prog), tuple(rec)))
         for l, e in prog:
             ctx.dist("lvalue:" + l[0]); ctx.dist("rhs_surely_absent" if surely_absent(e) else "rhs_other")
+        if res[0] == "skipped":
+            ctx.dist("assign_skipped_process_budget")
+            continue
         if res[0] in ("hang", "unparsable"):
+            nbroken += 1
+            if nbroken > 3:
+                continue
             ctx.violation({"kind": "assign", "broken": "mlr " + res[0], "record": rec, "program": program_text(prog), "detail": res[1]})
             continue
         try:
@@ -444,7 +464,7 @@ def run(ctx):
         res2 = run_all(ctx, [(rec, [s for s in prog if not absent_stmt(s)]) for rec, prog, _ in todo])
     for (rec, prog, res), r2 in zip(todo, res2):
         ctx.count(("assign-oracle", program_text(prog), tuple(rec)))
-        if r2 != res:
+        if r2 != res and "skipped" not in (r2[0], res[0]):
             oracle_bad.append((rec, prog, res, r2))
     ctx.cov["correspondence"]["assign_oracle_pairs"] = len(todo)
     for rec, prog, res, r2 in oracle_bad[:3]:
